@@ -73,7 +73,7 @@ func (g *Gen) Token() string {
 	return fmt.Sprintf("zq%dx%s", g.serial, g.letters(g.rng(5, 7)))
 }
 
-var dressings = []string{"ascii", "ascii", "ascii", "space", "unicode", "astral", "dollar", "digits", "escape", "html", "long", "empty", "jsonish", "b64ish", "upper", "pad", "pademail", "bslash"}
+var dressings = []string{"ascii", "ascii", "ascii", "space", "unicode", "astral", "dollar", "digits", "escape", "html", "long", "empty", "jsonish", "b64ish", "upper", "pad", "pademail", "bslash", "addr"}
 
 // SensString returns the contents of a sensitive ordinary string.
 func (g *Gen) SensString() string {
@@ -135,6 +135,25 @@ func (g *Gen) Dress(d string) string {
 			return " " + t
 		}
 		return g.pick(" ", "  ", "\t") + g.Email() + g.pick("", " ", "\n")
+	case "addr":
+		// values that LOOK like network addresses (a client_ip field, a replica-set member): ordinary strings
+		g.serial++
+		n := g.serial
+		v4 := fmt.Sprintf("%d.%d.%d.%d", 11+n/16777216%200, n/65536%256, n/256%256, n%256)
+		v6 := fmt.Sprintf("2001:db8:%x:%x::%x", n/65536%65536, n%65536, g.rng(1, 65535))
+		switch g.R.Intn(6) {
+		case 0:
+			return v4
+		case 1:
+			return fmt.Sprintf("%s:%d", v4, g.rng(1024, 65535))
+		case 2:
+			return v6
+		case 3:
+			return fmt.Sprintf("[%s]:%d", v6, g.rng(1024, 65535))
+		case 4:
+			return fmt.Sprintf("127.0.0.1:%d%03d", g.rng(10, 64), n%1000)
+		}
+		return fmt.Sprintf("mongo-%d.example.net:%d", n, g.rng(1024, 65535))
 	case "pad":
 		// leading / trailing white space must survive encryption round trips
 		return g.pick(" ", "\t", "", "\n", "\u00a0") + t + g.pick(" ", "  ", "\n", "\t", "\r\n")
